@@ -19,7 +19,7 @@ Norm(st) == [vers |-> {st.vers[i] : i \in 1..Len(st.vers)},
              rsaSchemes |-> {st.rsaSchemes[i] : i \in 1..Len(st.rsaSchemes)},
              minKey |-> st.minKey, maxKey |-> st.maxKey, etm |-> st.etm, ems |-> st.ems, reqEms |-> st.reqEms,
              rsl |-> st.rsl, alpn |-> st.alpn,
-             pskModes |-> {st.pskModes[i] : i \in 1..Len(st.pskModes)}]
+             pskModes |-> {st.pskModes[i] : i \in 1..Len(st.pskModes)}, dhPlain |-> st.dhPlain]
 CS == Norm(T[1].cs)
 SS == Norm(T[1].ss)
 TraceInit == tid \in 1..N /\ l = 2
